@@ -484,7 +484,7 @@ func (gb *gcpBalancer) UpdateSubConnState(sc balancer.SubConn, scs balancer.SubC
 		delete(gb.scStates, oldSc)
 		gb.scRefs[sc] = scRef
 		scRef.subConn = sc
-		scRef.deCalls = 0
+		atomic.StoreUint32(&scRef.deCalls, 0)
 		scRef.lastResp = time.Now()
 		scRef.refreshing = false
 		scRef.refreshCnt++
